@@ -61,7 +61,7 @@ func (in *Interp) installStubs() {
 			return st.BVConstI(int64(k), 64)
 		},
 		"vassume": func(in *Interp, a []Value) Value {
-			if !in.Ctx.Branch(a[0].(*smt.Term)) {
+			if !in.Ctx.Assume(a[0].(*smt.Term)) {
 				panic(&Abort{"assumption false"})
 			}
 			return nil
@@ -103,6 +103,13 @@ func (in *Interp) installStubs() {
 				return st.BVConstI(int64(v), 64)
 			}
 			return a[1]
+		},
+		"vtypename": func(in *Interp, a []Value) Value {
+			i := a[0].(Iface)
+			if i.T == nil {
+				return Str{S: "<nil>"}
+			}
+			return Str{S: i.T.String()}
 		},
 		"vnative": func(in *Interp, a []Value) Value { return st.F },
 		"nondetBig": func(in *Interp, a []Value) Value {
